@@ -19,6 +19,7 @@ import Okane.Drv.C18
 import Okane.Drv.C19
 import Okane.Drv.C20
 import Okane.Drv.Process
+import Okane.Drv.Dec96
 
 /-- `drv <command> [args]`: cases on stdin, one per line; results on stdout, one per line.
 `cNN` dispatches to the property's own driver module (`Okane/Drv/CNN.lean`), which may use `args`
@@ -46,4 +47,5 @@ def main (args : List String) : IO UInt32 := do
   | "c19" :: rest => Okane.Drv.C19.main rest; return 0
   | "c20" :: rest => Okane.Drv.C20.main rest; return 0
   | "process" :: _ => Okane.Drv.Process.main; return 0
+  | "dec96" :: rest => Okane.Drv.Dec96.main rest; return 0
   | _ => IO.eprintln "usage: drv <command> [args]  (cases on stdin)"; return 2
